@@ -294,6 +294,8 @@ func runChanCase(c *Case) string {
 		return "res " + c.id + " " + runDetach(rec, true, script, capacity, mode, cut, subCtx, false)
 	case "FromChannel":
 		return "res " + c.id + " " + runFromChannel(rec, script, capacity, c.get("close", "1") == "1", cut, subCtx)
+	case "FromChannelBacklog":
+		return "res " + c.id + " " + runFromChannelBacklog(capacity, cut, c.get("how", "take"))
 	case "Collect":
 		return "res " + c.id + " " + runCollect(script, capacity, c.get("via", "-"), subCtx)
 	}
@@ -453,6 +455,50 @@ func scriptValues(script []Tok) []int {
 
 func goroutinesBackTo(base int) bool {
 	return waitCond(func() bool { return runtime.NumGoroutine() <= base }, 300*time.Millisecond)
+}
+
+// FromChannel over a buffered channel that already holds `n` values; the consumer leaves after k of them (Take(k), or an
+// Unsubscribe issued from another goroutine as soon as k values were seen). What the reader had not received stays in the
+// channel for whoever reads it next: the reader checks `done` before every receive. (The `select` between a ready value
+// and `done` is random, so a few extra receives are legal; a drained backlog is not.)
+func runFromChannelBacklog(n, k int, how string) string {
+	setRecorder(nil)
+	ch := make(chan int, n)
+	for i := 0; i < n; i++ {
+		ch <- i
+	}
+	var seen int64
+	reached := make(chan struct{})
+	var once sync.Once
+	obs := ro.NewObserver(func(int) {
+		if atomic.AddInt64(&seen, 1) >= int64(k) {
+			once.Do(func() { close(reached) })
+		}
+		time.Sleep(20 * time.Microsecond)
+	}, func(error) {}, func() {})
+	var sub ro.Subscription
+	if how == "take" {
+		sub = ro.Take[int](int64(k))(ro.FromChannel[int](ch)).Subscribe(obs)
+	} else {
+		sub = ro.FromChannel[int](ch).Subscribe(obs)
+	}
+	select {
+	case <-reached:
+	case <-time.After(2 * time.Second):
+		return "harness-timeout at=reached"
+	}
+	if how != "take" {
+		sub.Unsubscribe()
+	}
+	if !waitSub(sub) {
+		return "harness-timeout at=wait"
+	}
+	time.Sleep(3 * time.Millisecond)
+	left := len(ch)
+	if left >= n-k-48 {
+		return "backlog=kept"
+	}
+	return fmt.Sprintf("backlog=drained:%d-of-%d-left-after-%d", left, n, k)
 }
 
 func runFromChannel(rec *Recorder, script []Tok, capacity int, willClose bool, cut int, subCtx context.Context) string {
@@ -653,6 +699,14 @@ func genChan(tier string, seed int64, only string) []*Case {
 				}
 			}
 			add("kind", "chan", "op", "Collect", "via", "-", "cap", "0", "sub", "7", "src", s)
+		}
+		// FromChannel: a long backlog whose consumer leaves early
+		if len(vals) == 1 {
+			for _, how := range []string{"take", "unsub"} {
+				for _, k := range []string{"1", "3", "20"} {
+					add("kind", "chan", "op", "FromChannelBacklog", "cap", "512", "cut", k, "how", how, "sub", "7", "src", "N1")
+				}
+			}
 		}
 		// FromChannel: the values, the user closes or abandons, unsubscription at every point
 		plain := make([]Tok, len(vals))
